@@ -90,19 +90,15 @@ Section Obs.
     sval_float parsef (SF64 (dy_norm z 0)) = sval_float parsef (SInt z).
   Proof. intros H. cbn [sval_float]. rewrite round53_small by exact H. reflexivity. Qed.
 
-  (* integer condition values within the exactly-representable range *)
-  Definition cscalar_small (x : cscalar) : Prop :=
-    match x with CInt y | CInt64 y => small y | _ => True end.
-  Definition cval_small (v : cval) : Prop :=
-    match v with CScalar x => cscalar_small x | CList _ => True end.
-
-  Lemma untyped_int_float z cv : small z -> cval_small cv ->
+  Lemma untyped_int_float z cv : small z ->
     compare_untyped (SF64 (dy_norm z 0)) cv = compare_untyped (SInt z) cv.
   Proof.
-    intros Hz Hc. destruct cv as [x|l]; [|reflexivity].
+    intros Hz. destruct cv as [x|l]; [|reflexivity].
     destruct x; cbn [compare_untyped]; try reflexivity.
-    - cbn in Hc. rewrite (round53_small z0 Hc). rewrite dy_cmp_norm. reflexivity.
-    - cbn in Hc. rewrite (round53_small z0 Hc). rewrite dy_cmp_norm. reflexivity.
+    - destruct (dy_norm_int z) as [m [k [-> [Hk Hm]]]]. rewrite dy_cmp_ints by lia.
+      rewrite <- Hm, Z.pow_0_r, Z.mul_1_r. reflexivity.
+    - destruct (dy_norm_int z) as [m [k [-> [Hk Hm]]]]. rewrite dy_cmp_ints by lia.
+      rewrite <- Hm, Z.pow_0_r, Z.mul_1_r. reflexivity.
     - rewrite round53_small by exact Hz. reflexivity.
   Qed.
 
@@ -173,9 +169,9 @@ Section Encoding.
   Variable rx : string -> option (string -> bool).
   Notation cmatch := (cmatch fmtv parsef rx).
 
-  Lemma cmatch_eqv c a b : cval_small (c_val c) -> ov_eqv a b -> cmatch c a = cmatch c b.
+  Lemma cmatch_eqv c a b : ov_eqv a b -> cmatch c a = cmatch c b.
   Proof.
-    intros Hc H. destruct a as [x|], b as [y|]; try contradiction; [|reflexivity].
+    intros H. destruct a as [x|], b as [y|]; try contradiction; [|reflexivity].
     cbn in H. destruct H as [v|z Hz|z Hz]; [reflexivity| |].
     - symmetry. apply cmatch_obs.
       + apply str_int_float. exact Hz.
@@ -202,8 +198,6 @@ Section Encoding.
       destruct (field_on t1 s1 f), (field_on t2 s2 f); try contradiction; [exact Hf|exact IH].
   Qed.
 
-  Definition rule_small (r : rule) : Prop := Forall (fun c => cval_small (c_val c)) (r_conds r).
-
   Lemma forallb_ext_in' {A} (p q : A -> bool) (l : list A) :
     (forall x, In x l -> p x = q x) -> forallb p l = forallb q l.
   Proof.
@@ -217,29 +211,29 @@ Section Encoding.
   Qed.
 
   Lemma spec_rule_matches_eqv t1 t2 r :
-    trace_eqv t1 t2 -> rule_small r ->
+    trace_eqv t1 t2 ->
     spec_rule_matches fmtv cmatch t1 r = spec_rule_matches fmtv cmatch t2 r.
   Proof.
-    intros Ht Hr. pose proof Ht as [Hsp _]. unfold rule_small in Hr. rewrite Forall_forall in Hr.
+    intros Ht. pose proof Ht as [Hsp _].
     unfold spec_rule_matches. destruct (scope_of (r_scope r)); [| |reflexivity].
     - f_equal. apply (existsb_Forall2 span_eqv); [exact Hsp|]. intros s1 s2 Hs.
-      apply forallb_ext_in'. intros c Hc. apply cmatch_eqv; [apply Hr; exact Hc|].
+      apply forallb_ext_in'. intros c Hc. apply cmatch_eqv.
       apply cond_value_eqv; assumption.
     - apply forallb_ext_in'. intros c Hc. unfold cond_on_trace.
       rewrite (has_root_eqv t1 t2 Ht). destruct (is_hasroot c); [reflexivity|].
       apply (existsb_Forall2 span_eqv); [exact Hsp|]. intros s1 s2 Hs.
-      apply cmatch_eqv; [apply Hr; exact Hc|]. apply cond_value_eqv; assumption.
+      apply cmatch_eqv. apply cond_value_eqv; assumption.
   Qed.
 
   Lemma rule_matched_eqv t1 t2 r :
-    trace_eqv t1 t2 -> rule_small r ->
+    trace_eqv t1 t2 ->
     rule_matched fmtv parsef rx t1 r = rule_matched fmtv parsef rx t2 r.
   Proof.
-    intros Ht Hr. destruct (scope_of (r_scope r)) eqn:Es.
+    intros Ht. destruct (scope_of (r_scope r)) eqn:Es.
     - rewrite !rule_matched_structural by (rewrite Es; discriminate).
-      rewrite (spec_rule_matches_eqv t1 t2 r Ht Hr). reflexivity.
+      rewrite (spec_rule_matches_eqv t1 t2 r Ht). reflexivity.
     - rewrite !rule_matched_structural by (rewrite Es; discriminate).
-      rewrite (spec_rule_matches_eqv t1 t2 r Ht Hr). reflexivity.
+      rewrite (spec_rule_matches_eqv t1 t2 r Ht). reflexivity.
     - unfold rule_matched. rewrite Es. reflexivity.
   Qed.
 
@@ -247,12 +241,11 @@ Section Encoding.
   Variable draw : nat -> Z.
 
   Lemma run_rules_eqv t1 t2 rules : forall i,
-    trace_eqv t1 t2 -> Forall rule_small rules ->
+    trace_eqv t1 t2 ->
     run_rules fmtv parsef rx ds draw t1 i rules = run_rules fmtv parsef rx ds draw t2 i rules.
   Proof.
-    induction rules as [|r rest IH]; intros i Ht Hr; cbn [run_rules]; [reflexivity|].
-    inversion Hr as [|? ? Hr1 Hr2]; subst.
-    rewrite (rule_matched_eqv t1 t2 r Ht Hr1).
+    induction rules as [|r rest IH]; intros i Ht; cbn [run_rules]; [reflexivity|].
+    rewrite (rule_matched_eqv t1 t2 r Ht).
     destruct (rule_matched fmtv parsef rx t2 r) as [m pre]. destruct m; [reflexivity|].
     apply IH; assumption.
   Qed.
@@ -404,10 +397,10 @@ Lemma dec_f32_same p d : dec p (WF32 d) = dec p (WF64 d).
 Proof. reflexivity. Qed.
 
 Theorem encoding_invariant fmtv parsef rx ds draw rules t1 t2 :
-  wtrace_rel t1 t2 -> Forall rule_small rules ->
+  wtrace_rel t1 t2 ->
   run_rules fmtv parsef rx ds draw (dec_trace t1) O rules =
   run_rules fmtv parsef rx ds draw (dec_trace t2) O rules.
-Proof. intros Ht Hr. apply run_rules_eqv; [apply dec_trace_rel; exact Ht|exact Hr]. Qed.
+Proof. intros Ht. apply run_rules_eqv. apply dec_trace_rel. exact Ht. Qed.
 
 (* ---------- the key: a function of per-field SETS of texts ---------- *)
 Definition slt (a b : string) : Prop := String.compare a b = Lt.
@@ -564,17 +557,3 @@ Theorem key_encoding_invariant fmtf fields use_len t1 t2 :
   wtrace_rel t1 t2 ->
   key_of fmtf fields use_len (dec_trace t1) = key_of fmtf fields use_len (dec_trace t2).
 Proof. intros Ht. apply key_eqv. apply dec_trace_rel. exact Ht. Qed.
-
-(* The hypothesis [rule_small] cannot be dropped: against a configured integer beyond 2^53 the
-   same field value compares differently as int64 and as float64 (sample/rules.go compare converts
-   the configured int to float64 when the field is a float64). *)
-Definition big_cond : cond :=
-  {| c_field := "a"; c_fields := []; c_opname := "="; c_val := CScalar (CInt (2 ^ 53 + 1)); c_dtname := "" |}.
-Lemma big_config_integer_differs :
-  exists fmtv parsef rx c z,
-    dy_trunc (dy_norm z 0) = z /\
-    cmatch fmtv parsef rx c (Some (SInt z)) <> cmatch fmtv parsef rx c (Some (SF64 (dy_norm z 0))).
-Proof.
-  exists (fun _ => ""), (fun _ => None), (fun _ => None), big_cond, (2 ^ 53).
-  split; [vm_compute; reflexivity|]. vm_compute. discriminate.
-Qed.
